@@ -130,6 +130,14 @@ def adapters_deliver_exactly_once(chk: Check, rule: str = 'FUT-exactly-once', ca
                 and not any(n is x for d in nested_defs for x in ast.walk(d))]
         chk.ob(rule, outer, len(refs) == 1, f'{f.name} is scheduled / registered exactly once by {outer.name} ({len(refs)} references)',
                kind='registered-once')
+        # ... on EVERY way through the adapter: an outcome delivered by something else on some path (a "the future is already done" shortcut that copies the outcome
+        # itself) bypasses what the callback does -- converting a nested loop future, telling a cancellation from an exception
+        if len(refs) == 1:
+            ocfg = cfg_of(outer)
+            rn = [m for m in ocfg.nodes if m.expr() is not None and any(x is refs[0] for x in ast.walk(m.expr()))]
+            from ..cfg import no_exc as _ne
+            chk.ob(rule, outer, bool(rn) and ocfg.must_pass(ocfg.entry, [ocfg.exit], lambda m: m in rn, edge_ok=_ne),
+                   f'every path through {outer.name} hands the outcome to {f.name} (no path delivers it some other way)', node=refs[0], kind='registered-on-every-path')
         # cancellation of the input is tested before its result() is taken
         for c in calls_in_func(f, 'result'):
             src = norm(c.func.value)
